@@ -22,12 +22,16 @@ rc=1
 deadlock() { out=$(run "$1" "$2" deadlock ""); if echo "$out" | grep -q REPRODUCED; then echo "$out" | grep REPRODUCED | sed 's/^ *//' | head -6; rc=0; else echo "$out" | grep -v "^time=\|ld:" | tail -3; fi; }
 doublestop() { out=$(run poc/engine/massdb/massdb.v1 c13_massdb_replay_test.go.txt doublestop ""); if echo "$out" | grep -q "close of closed channel\|close of nil channel"; then echo "REPRODUCED: two stop requests during one plot: $(echo "$out" | grep -m1 'panic:')"; echo "$out" | grep -A6 "^goroutine .*running" | head -8; rc=0; else echo "$out" | grep -v "^time=\|ld:" | tail -2; fi; }
 race() { out=$(run poc/engine/spacekeeper/capacity c13_capacity_replay_test.go.txt race -race); if echo "$out" | grep -A14 "WARNING: DATA RACE" | grep -q "plotterQueue\|prque\."; then echo "REPRODUCED: go test -race reports a data race on the plotter queue:"; echo "$out" | grep -A14 "WARNING: DATA RACE" | grep "plotterQueue\|prque\.\|Read at\|Write at\|Previous" | sed 's/^ *//' | awk '!seen[$0]++' | head -12; rc=0; else echo "$out" | grep -v "^time=\|ld:" | tail -2; fi; }
+wgrace() { out=$(run poc/engine/spacekeeper/capacity c13_capacity_replay_test.go.txt wg -race); if echo "$out" | grep -A12 "WARNING: DATA RACE" | grep -B8 -A8 "runtime.race" | grep -q "OnStop\|spacePlotter"; then echo "REPRODUCED: go test -race: OnStop's WaitGroup.Wait races with the Add made inside the plotter goroutine"; echo "$out" | grep -A10 "runtime.racewrite\|runtime.raceread" | grep "capacity\." | sed 's/^ *//' | awk '!seen[$0]++' | head -6; rc=0; else echo "$out" | grep -v "^time=\|ld:" | tail -2; fi; }
+listrace() { out=$(run poc/engine/spacekeeper/capacity c13_capacity_replay_test.go.txt listrace -race); if echo "$out" | grep -A30 "WARNING: DATA RACE" | grep -q "getWsByFlags\|deleteFromSlice\|disuseWorkSpace"; then echo "REPRODUCED: go test -race: the configured-space list is read without the state lock while a remove request rewrites it:"; echo "$out" | grep -A30 "WARNING: DATA RACE" | grep "capacity\.\(getWsByFlags\|deleteFromSlice\|(\*SpaceKeeper)\.\(GetProofs\|disuseWorkSpace\|RemoveWS\|.*MultiWS\)\)" | sed 's/^ *//' | awk '!seen[$0]++' | head -8; rc=0; else echo "$out" | grep -v "^time=\|ld:" | tail -2; fi; }
 case "$ob" in
+  *workSpaceList*|*selectWorkSpaces*) listrace;;
+  *plotter-registered*|*does-not-register-itself*) wgrace;;
   *skchia*hand-off*) deadlock poc/engine.v2/spacekeeper/skchia c13_skchia_replay_test.go.txt;;
   *hand-off*) deadlock poc/engine/spacekeeper/capacity c13_capacity_replay_test.go.txt;;
   *StopPlot*) doublestop;;
   *plotterQueue*|*spacePlotter*) race;;
-  "") doublestop; race;;
+  "") doublestop; race; wgrace; listrace;;
   *) echo "no driver for $ob"; exit 1;;
 esac
 exit $rc
